@@ -461,7 +461,7 @@ func c09RunScenario(c *core.Ctx, s c09Scenario, deadline time.Time, replay []str
 	c.Add("traces_validated_against_impl", int64(st.Executions))
 	c.Add("terminal_states", int64(st.Terminal))
 	c.Max("max_depth", int64(st.MaxDepth))
-	c.EvalN(int64(st.Executions), int64(st.States))
+	c.EvalN(int64(st.Transitions), int64(st.States)) // one evaluation = one step of the real code followed by the invariant in the state reached
 	c.Observe("scenarios", fmt.Sprintf("%s: %d states, %d transitions, %d executions, %d terminal", s.name, st.States, st.Transitions, st.Executions, st.Terminal))
 	if st.Capped {
 		c.Incomplete("scenario " + s.name + ": time budget reached before the state space was exhausted")
